@@ -105,7 +105,7 @@ type world struct {
 	dbPath   string
 	stmts    *cluster.VerifC29Stmts
 	dirty    map[int]bool // nodes whose membership row differs from the initial one
-	shutdown bool // end of a history: release blocked senders
+	shutdown bool         // end of a history: release blocked senders
 	mainTid  int
 
 	// per history
@@ -139,6 +139,12 @@ func newWorld(n int) *world {
 	settings.SetDefault(defs.ServerTokenKeySetting, "c29-shared-token-key")
 
 	var err error
+
+	// Building the route table configures a cache (SetExpiration), which would
+	// launch that cache's sweeper as a plain goroutine (no scheduler is active
+	// here); one minute later it would enter the woven lock from outside the
+	// scheduler. Do it in a state whose classes all have "a sweeper already".
+	caches.VerifC29Load(caches.VerifC29New())
 
 	// nobody logs on with a password here; the router only needs a user service
 	auth.AuthService, err = auth.NewFileService("", "admin", "")
